@@ -113,6 +113,8 @@ func (t *BaseTraveler) AddMark(label string, r *DataElement) Traveler {
 		o.Path[i] = t.Path[i]
 	}
 	o.Current = t.Current
+	//marking does not change what the traveler carries: an aggregation result stays one
+	o.Aggregation = t.Aggregation
 	return &o
 }
 
